@@ -81,6 +81,8 @@ T0 == [cst |-> "none",     \* client Stream: none | open | half | closed
                            \*                | drained (closed by the repaired listener.Close)
        wcl |-> FALSE,      \* streamWrapper.closed
        dead |-> FALSE,     \* ghost: wrapped when its session was already closed (taken from acceptCh after shutdown)
+       reinc |-> FALSE,    \* ghost: a data message arrived after the server had closed and removed the stream, and
+                           \* Session.getStream took it for the first message of a new stream (same id, second Stream)
        surf |-> 0,         \* how often Accept returned this stream
        sp |-> 0, sb |-> 0, \* server side pendingData / recvBuf bytes
        cp |-> 0, cb |-> 0, \* client side
@@ -154,7 +156,7 @@ DeliverUp(c) ==
      IF m.t = "data" THEN
         IF T[s].sst \in {"none", "closed"}
         THEN /\ T' = [T EXCEPT ![s].sst = "open", ![s].sp = m.n, ![s].sb = 0, ![s].wrap = "none", ![s].wcl = FALSE,
-                           ![s].dead = FALSE]
+                           ![s].dead = FALSE, ![s].reinc = (T[s].sst = "closed")]
              /\ S' = [S EXCEPT ![c].up = Tail(@), ![c].acch = Append(@, m.k)]
         ELSE /\ T' = [T EXCEPT ![s].sp = @ + m.n]
              /\ S' = [S EXCEPT ![c].up = Tail(@)]
@@ -414,6 +416,8 @@ CounterExact == \A c \in Sess : S[c].reg = "done" /\ S[c].waiter # "none" =>
                    S[c].wg = (IF S[c].inmap THEN 1 ELSE 0) + Cardinality(Wrapped(c))
 \* a stream surfaces at most once
 AtMostOnce == \A s \in Str : T[s].surf <= 1
+\* classifier of the known finding "late-data-resurrects-closed-stream": only such a stream may surface twice
+AtMostOnceModuloLateData == \A s \in Str : T[s].surf <= 1 \/ T[s].reinc
 \* ... and at least once: at rest, with the listener open, every stream that reached a live registered server session
 \* has been returned by Accept or is waiting in the backlog (or is held by the loop because the backlog is full)
 Surfaces == Quiescent /\ ~lclosed =>
